@@ -1,6 +1,6 @@
 (* C14 property theorems. *)
 From Coq Require Import NArith List Bool.
-From PV Require Import Lib.Bytes Model.Frame Model.Reader Spec.Envelope Spec.C14 Proofs.EnvelopeFacts.
+From PV Require Import Lib.Bytes Model.Frame Model.Reader Spec.Envelope Spec.C14 Proofs.EnvelopeFacts Proofs.C14Facts.
 Import ListNotations.
 Open Scope N_scope.
 
@@ -13,6 +13,16 @@ Print Assumptions C14_noise.
 Theorem C14_resync_clean : C14_resync_clean_statement.
 Proof. exact EnvelopeFacts.C14_resync_clean. Qed.
 Print Assumptions C14_resync_clean.
+
+(* resynchronisation after ANY noise, for every frame without an interior start delimiter *)
+Theorem C14_resync_interior_free : C14_resync_interior_free_statement.
+Proof. exact C14Facts.C14_resync_interior_free. Qed.
+Print Assumptions C14_resync_interior_free.
+Example C14_resync_interior_free_nonvacuous :
+  let f := mkFrame 8 0 69 48 5 [1; 2; 3] in
+  wf_frame f = true /\ deliverable f = true /\ no_interior f = true /\
+  picked_up ([104; 200; 3; 1; 2] ++ repeat 7 40) f 102 = true.
+Proof. vm_compute. repeat split. Qed.
 
 (* the full resynchronisation clause is false of the reader: known finding D16 *)
 Definition d16_frame : frame :=
